@@ -806,7 +806,8 @@ class Engine:
     def modified_in(self, body, fr):
         """syntactic over-approximation of the names assigned and the object paths written in a loop body.
         Paths are dotted: 'D' (the whole object D refers to) or 'self._variables' (one attribute / sub-object)."""
-        names, paths = set(), set()
+        names, paths, subs = set(), set(), set()
+        self._sub_paths = subs
 
         def path_of(e):
             parts = []
@@ -854,6 +855,7 @@ class Engine:
                     p = path_of(t.value)
                     if p is not None:
                         paths.add(p)
+                        subs.add(p)
                     else:
                         b = base_name(t)
                         if b:
@@ -893,6 +895,12 @@ class Engine:
         return owner, attr, v
 
     def havoc_path(self, fr, path):
+        if path.endswith(".<store>"):
+            o = self.resolve_path(fr, path[:-8])[2]
+            if isinstance(o, PObj) and o.store is not None:
+                self.havoc_object(o.store, path[:-8].replace(".", "_") + "_store")
+                return {id(o.store)}
+            return set()
         owner, attr, v = self.resolve_path(fr, path)
         if v is None and owner is None:
             return set()
@@ -947,6 +955,19 @@ class Engine:
         names, objnames = self.modified_in(s.body, fr)
         for extra in spec.get("modifies", ()):
             objnames.add(extra)
+        # an item assignment `obj[k] = v` on a model object changes what its __setitem__ contract says it changes
+        for pth in list(getattr(self, "_sub_paths", ())):
+            if pth in objnames and pth not in spec.get("modifies", ()):
+                o = self.resolve_path(fr, pth)[2]
+                if isinstance(o, PObj) and o.store is not None:
+                    k, fd, kind = self.db.find_method(o.cls, "__setitem__")
+                    sc = self.contracts.get("%s:%s.__setitem__" % (k.module, k.name)) if fd is not None else None
+                    if sc is not None and not any(m == "self" for m in sc.modifies):
+                        objnames.discard(pth)
+                        objnames.add(pth + ".<store>")
+                        for m in sc.modifies:
+                            if m.startswith("self."):
+                                objnames.add(pth + m[4:])
         objnames = {p for p in objnames if not any(p != q and p.startswith(q + ".") for q in objnames)}
         # ---- the collection
         filt = None
